@@ -69,6 +69,9 @@ class Driver:
             from .localrun import job_script
 
             return job_script(self.sb.ctl, self.perm[t], "%s version %d" % (t, v))
+        if self.variant % 2:
+            # the usual way of writing a spec: an indented triple-quoted block (leading newline, common indentation)
+            return "\n    echo %s version %d\n    true\n    " % (t, v)
         return spec_text(t, v)
 
     def write_workflow(self):
@@ -104,10 +107,10 @@ class Driver:
 
     def show(self, source, j, st=None):
         """The code `source` prints for job j (seeded per trace and job; the first code of each list is
-        the plain one and is used for two thirds of the jobs)."""
+        the plain one and is used for half of the jobs, the others cycle through the list)."""
         codes = self.SHOW[source][st or j["st"]]
         r = random.Random(self.variant * 7919 + j["id"] * 31 + len(source))
-        return codes[0] if r.random() < 0.67 else r.choice(codes)
+        return codes[0] if r.random() < 0.5 else codes[(self.variant + j["id"]) % len(codes)]
 
     def render(self):
         if self.backend == "local":
@@ -120,7 +123,7 @@ class Driver:
             st = j["st"]
             # with accounting, a fifth of the jobs are ones whose accounting record lags behind the controller: once
             # finished they are still listed by squeue with their final code while sacct shows their last live state
-            lag = self.backend == "slurm" and st in ("OK", "FAIL", "CA") and random.Random(self.variant * 131 + j["id"]).random() < 0.2
+            lag = self.backend == "slurm" and st in ("OK", "FAIL", "CA") and random.Random(self.variant * 131 + j["id"]).random() < 0.35
             if st in ("PD", "R"):
                 sq.append((rid, self.show("squeue", j)))
                 qs.append((rid, ("hqw" if any(self.job(k)["st"] in ("PD", "R", "E") for k in j["hold"]) else "qw") if st == "PD" else self.show("qstat", j)))
@@ -445,13 +448,23 @@ class Driver:
         # (adversarial but legal) clock that advances with every call.
         import pathlib
 
-        seq = [0]
+        # Two clocks exist: the kernel stamps a file with its coarse clock (the start of the current tick), a
+        # program that passes an explicit "now" passes a fine-grained reading, which lies *within* a tick.
+        # Legal and unfriendly: every kernel stamp falls into a new tick; an explicit reading is taken half way
+        # into the next tick, so that a kernel stamp made right after it (same tick) is older than it.
+        seq, frac = [0], [0]
         base_ns = (BASE_TIME + 200000) * 10**9
         orig_touch, orig_utime = pathlib.Path.touch, os.utime
 
         def tick(path):
             seq[0] += 1
+            frac[0] = 0
             t = base_ns + seq[0] * 10**9
+            orig_utime(path, ns=(t, t))
+
+        def reading(path):
+            frac[0] += 1
+            t = base_ns + (seq[0] + 1) * 10**9 + 5 * 10**8 + frac[0] * 10**6
             orig_utime(path, ns=(t, t))
 
         def touch(self_, *a, **k):
@@ -459,9 +472,17 @@ class Driver:
             tick(self_)
 
         def utime(path, *a, **k):
+            import time as _time
+
             orig_utime(path, *a, **k)
-            if a == () and not k or (a and a[0] is None) or k.get("times", 1) is None:
+            times = a[0] if a else k.get("times")
+            ns = k.get("ns")
+            if times is None and ns is None:
                 tick(path)
+            else:
+                m = ns[1] / 1e9 if ns is not None else times[1]
+                if abs(m - _time.time()) < 5:      # an explicit reading of the current time
+                    reading(path)
 
         pathlib.Path.touch, os.utime = touch, utime
         try:
